@@ -886,6 +886,21 @@ class PytatoKeyBuilder(LoopyKeyBuilder):
         self.rec(key_hash, key.shape)
         self.rec(key_hash, key.data.tobytes())
 
+    def update_for_numpy_integer(self, key_hash: Any, key: Any) -> None:
+        # Nodes whose parameters (shape, axis, shift, index, ...) were given as
+        # numpy integers of any width compare (and hash) equal to those built
+        # from Python ints: they must get the same key.
+        self.update_for_int(key_hash, int(key))
+
+    update_for_int8 = update_for_numpy_integer
+    update_for_int16 = update_for_numpy_integer
+    update_for_int32 = update_for_numpy_integer
+    update_for_int64 = update_for_numpy_integer
+    update_for_uint8 = update_for_numpy_integer
+    update_for_uint16 = update_for_numpy_integer
+    update_for_uint32 = update_for_numpy_integer
+    update_for_uint64 = update_for_numpy_integer
+
     def update_for_TaggableCLArray(self, key_hash: Any, key: Any) -> None:
         from arraycontext.impl.pyopencl.taggable_cl_array import (  # pylint: disable=import-error
             TaggableCLArray,
